@@ -248,7 +248,7 @@ def run(ctx):
         ctx.exhaustive = True
     else:
         hot = [t for t in triples if t[0]["clash"] or t[0]["same"]]
-        triples = ctx.rng.sample(hot, 1800) + ctx.rng.sample(triples, 900) + \
+        triples = ctx.rng.sample(hot, 900) + ctx.rng.sample(triples, 400) + \
             [(c, m, k) for c in c1 for m in MODES for k in COLLS if c["leaves"][0]["o"] == "P1" or c["fields"][0]["k"] == "leaf"]
     prepare(ctx, triples)
     sc.BASE = str(ctx.scratch)
